@@ -169,8 +169,8 @@ def _accessor_job(kind):
         from bromelia.avps import SupportedFeaturesAVP, HostIpAddressAVP, EventTimestampAVP, FeatureListAVP, OriginStateIdAVP
         import datetime as _dt
         out = []
-        if kind == "bits":
-            for w, i in ((0x80000001, 0), (0x00000000, 31), (0x7fffffff, 17)):
+        if kind in ("bits", "bits2"):
+            for w, i in ((0x80000001, 0), (0x00000000, 31), (0x7fffffff, 17)) if kind == "bits" else ((0x00000100, 7), (0xa5a5a5a5, 8), (0xffffffff, 24)):
                 a = OriginStateIdAVP(w.to_bytes(4, "big"))
                 r = [a.is_bit_set(i)]
                 try:
@@ -191,13 +191,33 @@ def _accessor_job(kind):
 
 def purity(rep):
     from engine import concur
-    pairs = [("bit accessors in one thread, address / time accessors in the other", _accessor_job("bits"), _accessor_job("addr")),
-             ("bit accessors in both threads", _accessor_job("bits"), _accessor_job("bits"))]
+    pairs = [("bit accessors in both threads (different AVP objects)", _accessor_job("bits"), _accessor_job("bits2")),
+             ("bit accessors in one thread, address / time accessors in the other", _accessor_job("bits"), _accessor_job("addr"))]
     return concur.purity_stage(rep, "the typed accessors", pairs[:1 if rep.tier == "quick" else 2], ("/bromelia/types.py",), kmax=600, stride=3 if rep.tier == "quick" else 1)
+
+
+def aware_datetimes(rep):
+    """timezone-aware datetimes: the classes may refuse them; when they build an AVP it carries the instant's seconds since 1900-01-01 UTC"""
+    from bromelia.avps import EventTimestampAVP
+    for off in (0, 1, -8, 5.5, 14):
+        tz = datetime.timezone(datetime.timedelta(hours=off))
+        for y, mo, d, h, mi in ((1900, 1, 2, 0, 0), (1970, 1, 1, 0, 0), (2020, 6, 15, 12, 30), (2036, 2, 6, 6, 28)):
+            dt = datetime.datetime(y, mo, d, h, mi, 7, tzinfo=tz)
+            rep.case(("aware", off, y))
+            try:
+                a = EventTimestampAVP(dt)
+            except BaseException:
+                continue
+            want = int((dt - datetime.datetime(1900, 1, 1, tzinfo=datetime.timezone.utc)).total_seconds())
+            if not isinstance(a.data, bytes) or a.data != want.to_bytes(4, "big"):
+                rep.violation(f"EventTimestampAVP({dt.isoformat()}) was accepted and carries {a.data.hex() if isinstance(a.data, bytes) else a.data!r}: the instant is "
+                              f"{want} s after 1900-01-01T00:00Z ({want.to_bytes(4, 'big').hex()})", {"kind": "aware", "dt": dt.isoformat()})
+                return
 
 
 def run(rep):
     purity(rep)
+    aware_datetimes(rep)
     descs = dictx.descriptors()
     u32 = [d for d in descs if d.type == "Unsigned32Type"]
     addr = [d for d in descs if d.type == "AddressType"]
